@@ -310,6 +310,14 @@ def gen_histories(ctx):
     def flipless(intf):
         return [i[:6] + (None,) for i in intf]
 
+    # corpus (runs first): the Lean negation witness `witnessD10` (cross-point history on 2x2 patches of 2x2 dofs),
+    # the same complex in the order detect_interfaces produces (`orderOK`), a single patch without calls
+    w = [[2, 2]] * 4
+    jb = {(0, 1): ('jb', 0, 1, 1, 1, 1, 0, None), (2, 3): ('jb', 2, 1, 1, 3, 1, 0, None),
+          (0, 2): ('jb', 0, 0, 1, 2, 0, 0, None), (1, 3): ('jb', 1, 0, 1, 3, 0, 0, None)}
+    H.append(('corpus-witnessD10', w, [jb[(0, 1)], jb[(2, 3)], jb[(0, 2)], jb[(1, 3)]]))
+    H.append(('corpus-orderOK', w, [jb[(0, 1)], jb[(0, 2)], jb[(1, 3)], jb[(2, 3)]]))
+    H.append(('corpus-single', [[3, 2]], []))
     # 2x1 and 1x2, all sizes 2..3, with and without reversal
     for n0, n1, n2 in itertools.product((2, 3), repeat=3):
         for rev in itertools.product(itertools.product((False, True), repeat=2), repeat=2):
@@ -470,19 +478,23 @@ def run(ctx):
     got = ctx.model('drv_c14', req)
     dis = [k for k in range(len(H)) if got[k] != impl[k]]
     ctx.count('histories equal to the repaired model', len(H) - len(dis))
-    # where the implementation differs from the repaired model it must be the literal model of the pinned source
-    got_coded = ctx.model('drv_c14', ['hist 0 0 ' + fmt_hist(H[k][1], H[k][2]) for k in dis])
+    # where the implementation differs from the repaired model it must equal a model variant in which one or both
+    # repairs are absent (Cfg merge/unshared = 0), on a history that shows the signature of that recorded defect
+    variants = [(0, 0), (1, 0), (0, 1)]
+    got_var = {v: ctx.model('drv_c14', ['hist %d %d ' % v + fmt_hist(H[k][1], H[k][2]) for k in dis]) for v in variants}
     unexplained = 0
     reported = {}
-    for k, gc in zip(dis, got_coded):
+    for pos, k in enumerate(dis):
         name, shapes, calls = H[k]
+        gc = got_var[(0, 0)][pos]
         descr = oracle(shapes, calls, keep[k])
-        meets, unshared = history_signature(shapes, calls)
-        is_coded = (gc == impl[k])
-        if is_coded:
-            ctx.count('histories equal to the as-coded model only')
+        matching = [v for v in variants if got_var[v][pos] == impl[k]]
+        for v in matching[:1]:
+            ctx.count('histories equal to model variant merge=%d unshared=%d only' % v)
         key = classify(shapes, calls, descr) if descr is not None else 'mp-corr'
-        if not (is_coded and key in (KEY_MERGE, KEY_UNSHARED)):
+        explained = ((key == KEY_MERGE and any(v[0] == 0 for v in matching)) or
+                     (key == KEY_UNSHARED and any(v[1] == 0 for v in matching)))
+        if not explained:
             # not an instance of a recorded defect of the pinned source
             unexplained += 1
             key = 'mp-corr' if descr is None else 'mp-oracle'
@@ -494,7 +506,7 @@ def run(ctx):
                            'oracle': descr, 'stream': 'mp (drv_c14)',
                            'replay': 'Multipatch([(kvs_p, None)…]); join_boundaries(p1,(ax1,s1),p2,(ax2,s2),flip) per call; finalize(); numdofs / patch_to_global_idx'},
                           descr is not None)
-    ctx.obligation('correspondence stream mp: %d histories; implementation == repaired model, or == as-coded model on a history with a recorded-defect signature' % len(H),
+    ctx.obligation('correspondence stream mp: %d histories; implementation == repaired model, or == a model variant without one of the repairs on a history with that recorded-defect signature' % len(H),
                    unexplained == 0, '%d unexplained disagreements; disagreements by key: %s' % (unexplained, reported))
     ctx.extra['requests'] = len(req) + len(dis)
 
